@@ -1,0 +1,20 @@
+//go:build verif
+
+package validator
+
+import (
+	"sync/atomic"
+
+	"github.com/ccbrown/api-fu/graphql/ast"
+)
+
+// VerifCostVisits counts the fields and fragment spreads visited by the cost walk of ValidateCost
+// (build tag `verif` only; see /verif, property C12).
+var VerifCostVisits int64
+
+func verifCostVisit(node ast.Node) {
+	switch node.(type) {
+	case *ast.Field, *ast.FragmentSpread:
+		atomic.AddInt64(&VerifCostVisits, 1)
+	}
+}
